@@ -51,6 +51,7 @@ type msgsObs struct {
 	Pt, Sender, Msg string
 	Inflight        bool
 	Variant         string
+	NCases          int
 	OwnKind         string // "~own": the victim's own request ...
 	OwnHonest       bool   // ... answered by the real M (control)
 	OwnRes          string // ok | rejected | timeout | error
@@ -102,15 +103,17 @@ func msgsExec(mode msgsMode) func(t *testing.T, ssc schedrun.Scenario, o vsched.
 		// latency (the order of the two events is a scheduler choice; explored with bound 1).
 		edge := variant == "edge" || variant == "edge0"
 		var cases []*mcase
-		if variant != "nonce" && !strings.HasPrefix(variant, "undeliv") {
+		special := variant == "nonce" || strings.HasPrefix(variant, "undeliv") || variant == "opening" || variant == "splitfund" || variant == "halfopen"
+		if !special {
 			cases = lookupCases(sender, names)
 		}
+		obs.NCases = len(cases)
 		if variant == "own" {
 			obs.OwnKind, obs.OwnHonest = cases[0].Own, cases[0].OwnHonest
 		}
 		s := vsched.Run(t, o, func() {
 			n := 2
-			if strings.HasPrefix(pt, "hub-") {
+			if strings.HasPrefix(pt, "hub") {
 				n = 3
 			}
 			w := NewWorld(n, nil, false)
@@ -143,6 +146,38 @@ func msgsExec(mode msgsMode) func(t *testing.T, ssc schedrun.Scenario, o vsched.
 				obs.Stage = "done"
 				return
 			}
+			if variant == "opening" || variant == "splitfund" || variant == "halfopen" {
+				obs.PropsBefore, obs.ChansBefore = len(V.ProposalsSeen), len(V.Chans)
+				sentBefore, enBefore := len(w.Bus.Sent), len(w.Enabled)
+				sc.snapshot()
+				var crafts []mCrafted
+				switch variant {
+				case "opening":
+					obs.OwnRes = sc.openingRun(strings.TrimPrefix(names, "opening/"))
+				case "splitfund":
+					crafts = sc.splitFundRun(obs, strings.TrimPrefix(names, "splitfund/"))
+				case "halfopen":
+					sc.halfOpenRun(obs, strings.TrimPrefix(names, "halfopen/"))
+				}
+				obs.Stage = "waiting"
+				vsched.Sleep(60 * time.Second)
+				obs.PropsAfter, obs.ChansAfter = len(V.ProposalsSeen), len(V.Chans)
+				obs.Errs = append(obs.Errs, sc.threadErrs...)
+				if !mode.Probe {
+					judgeCountersignatures(sc, obs, sc.views, crafts, w.Bus.Sent[sentBefore:], w.Enabled[enBefore:])
+				} else {
+					obs.Stage = "probing"
+					obs.Probes = sc.probe()
+					if variant == "opening" && sc.led != nil {
+						// the client must still be able to open channels
+						w.Bus.Drop = nil
+						_, _, err := w.OpenLedger(1, 0, 5, 5)
+						obs.Probes = append(obs.Probes, mProbeRes{"fresh ledger channel proposed by M", classify(err)})
+					}
+				}
+				obs.Stage = "done"
+				return
+			}
 			if strings.HasPrefix(variant, "undeliv") {
 				// honest traffic only: M's request, the victim's answer cannot be delivered
 				obs.PropsBefore, obs.ChansBefore = len(V.ProposalsSeen), len(V.Chans)
@@ -159,6 +194,9 @@ func msgsExec(mode msgsMode) func(t *testing.T, ssc schedrun.Scenario, o vsched.
 			}
 			vRequestOut := false
 			w.Bus.Drop = func(e *wire.Envelope) bool {
+				if variant == "own" {
+					vsched.Sleep(5 * time.Millisecond) // publishing takes time: an opening is in flight for a while
+				}
 				if w.partyOf(e.Sender) == V.Idx {
 					if variant == "edge" {
 						vsched.Sleep(time.Millisecond) // publishing takes time
@@ -178,7 +216,7 @@ func msgsExec(mode msgsMode) func(t *testing.T, ssc schedrun.Scenario, o vsched.
 							return false
 						}
 					}
-					if sc.B != nil && w.partyOf(e.Recipient) == sc.B.Idx && sc.Pt != "hub-collude" {
+					if sc.B != nil && w.partyOf(e.Recipient) == sc.B.Idx && !strings.HasSuffix(sc.Pt, "-collude") {
 						return false // hub points: B is an honest real client, the hub's answers reach it
 					}
 					return true
@@ -200,6 +238,7 @@ func msgsExec(mode msgsMode) func(t *testing.T, ssc schedrun.Scenario, o vsched.
 			views := sc.views
 			var crafts []mCrafted
 			obs.Items = make([]mItemObs, len(cases))
+			var extraItems []mItemObs // resolved into obs.Items before the countersignatures are judged
 			injectOne := func(i int) {
 				c := cases[i]
 				it := &obs.Items[i]
@@ -228,8 +267,16 @@ func msgsExec(mode msgsMode) func(t *testing.T, ssc schedrun.Scenario, o vsched.
 					protos[k] = proto
 					it.Proto = it.Proto || proto
 					if up, ok := dec.Msg.(client.ChannelUpdateProposal); ok {
-						it.IsUpdate = true
-						crafts = append(crafts, mCrafted{i, up.Base()})
+						if !it.IsUpdate {
+							it.IsUpdate = true
+							crafts = append(crafts, mCrafted{i, up.Base()})
+						} else {
+							// a further update-like envelope of the same case is judged as an item of its own
+							extra := *it
+							extra.Name = fmt.Sprintf("%s#%d", c.Name, k+1)
+							extraItems = append(extraItems, extra)
+							crafts = append(crafts, mCrafted{-len(extraItems), up.Base()})
+						}
 					}
 				}
 				for k, env := range envs {
@@ -254,14 +301,9 @@ func msgsExec(mode msgsMode) func(t *testing.T, ssc schedrun.Scenario, o vsched.
 					obs.OwnRes, obs.OwnDetail = sc.ownRequest(obs.OwnKind)
 					vsched.Send(done, struct{}{})
 				})
-				if obs.OwnHonest {
-					for i := range cases {
-						obs.Items[i] = mItemObs{Name: cases[i].Name, Cat: cases[i].Cat, NA: true}
-					}
-				} else {
-					vsched.WaitCond("await-victim-request", func() bool { return sc.ownReq != nil })
-					injectAll()
-				}
+				// (the control injects nothing, or only a stray message while the honest exchange runs)
+				vsched.WaitCond("await-victim-request", func() bool { return sc.ownReq != nil })
+				injectAll()
 				vsched.Recv(done)
 			} else if obs.Held {
 				// The victim proposes an honest update; the request is lost, the peer stays silent: the victim's
@@ -310,6 +352,13 @@ func msgsExec(mode msgsMode) func(t *testing.T, ssc schedrun.Scenario, o vsched.
 			obs.Errs = append(obs.Errs, sc.threadErrs...)
 			// C07: which crafted states did the victim countersign, and was that acceptable?
 			if !mode.Probe {
+				base := len(obs.Items)
+				obs.Items = append(obs.Items, extraItems...)
+				for k := range crafts {
+					if crafts[k].item < 0 {
+						crafts[k].item = base + (-crafts[k].item - 1)
+					}
+				}
 				judgeCountersignatures(sc, obs, views, crafts, w.Bus.Sent[sentBefore:], w.Enabled[enBefore:])
 			}
 			for _, e := range w.Enabled[enBefore:] {
@@ -457,6 +506,9 @@ func c07acceptable(v *mChanView, up *client.ChannelUpdateMsg, pend []pendingAuto
 	subWhy := "a sub-allocation with the awaited id is added, but it is not exactly that channel's (amount = sum of its balances, index map as agreed)"
 	balWhy := "the awaited sub-allocation is added / removed, but the balances do not change by exactly each participant's balance in that channel"
 	for _, p := range pend {
+		if p.On != (channel.ID{}) && p.On != cur.ID {
+			continue
+		}
 		switch p.Kind {
 		case "fund":
 			rest, x, ok := mWithout(to.Locked, p.ID)
@@ -682,6 +734,12 @@ type msgsPlan struct {
 	HubPair bool
 	// Edge family: the matching proposal arrives when the hub's wait for it ends
 	Edge bool
+	// Opening family: a stray version-1 update of an unknown channel while the victim is the PROPOSEE of an opening
+	Opening bool
+	// SplitFund family (C07): a hand-written sub-channel proposal whose funding agreement differs from its balances
+	SplitFund bool
+	// HalfOpen family: M proposes a sub-channel, never completes the opening, later sends the matching funding update
+	HalfOpen bool
 	// Explicit further scenarios (name -> thorough only)
 	Extra []extraScenario
 }
@@ -709,6 +767,15 @@ func msgsScenarios(mode msgsMode, plan msgsPlan) func(res *report.Result) []sche
 					continue
 				}
 				out = append(out, schedrun.Scenario{Name: pt + "/" + c.Sender + "/" + c.Name, Mode: explore.Delay, Bound: 0, MaxSteps: 400000, Weight: 1})
+			}
+		}
+		for i := range all {
+			if c := &all[i]; c.Pts != nil && plan.Cats[c.Cat] {
+				for _, pt := range c.Pts {
+					if n := pt + "/" + c.Sender + "/" + c.Name; !hasScenario(out, n) {
+						out = append(out, schedrun.Scenario{Name: n, Mode: explore.Delay, Bound: 0, MaxSteps: 400000, Weight: 1})
+					}
+				}
 			}
 		}
 		for _, pt := range plan.UnreachPts {
@@ -742,6 +809,23 @@ func msgsScenarios(mode msgsMode, plan msgsPlan) func(res *report.Result) []sche
 				if res.Thorough() {
 					out = append(out, schedrun.Scenario{Name: x[0] + "~edge0/M/" + x[1], Mode: explore.Delay, Bound: 1, MaxSteps: 400000, Weight: 900, Postpone: true})
 				}
+			}
+		}
+		if plan.Opening {
+			for _, x := range [][2]string{{"nochan", "ledger"}, {"open-v1", "ledger"}, {"open-v1", "sub"}, {"sub-v1", "sub"}} {
+				for _, from := range []string{"stranger", "peer"} {
+					out = append(out, schedrun.Scenario{Name: x[0] + "~opening/M/opening/" + x[1] + "/" + from, Mode: explore.Delay, Bound: 0, MaxSteps: 400000, Weight: 2})
+				}
+			}
+		}
+		if plan.SplitFund {
+			for _, m := range splitFundMembers {
+				out = append(out, schedrun.Scenario{Name: "open-v1~splitfund/M/splitfund/" + m, Mode: explore.Delay, Bound: 0, MaxSteps: 400000, Weight: 2})
+			}
+		}
+		if plan.HalfOpen {
+			for _, m := range halfOpenMembers {
+				out = append(out, schedrun.Scenario{Name: "open-v1~halfopen/M/halfopen/" + m, Mode: explore.Delay, Bound: 0, MaxSteps: 400000, Weight: 2})
 			}
 		}
 		for _, x := range plan.Extra {
